@@ -207,6 +207,9 @@ func (c *channel) sendMsg(req request) (err error) {
 	defer c.streamMut.RUnlock()
 
 	done := make(chan struct{})
+	// read under streamMut: reconnect replaces cancelStream while holding the write
+	// lock, and the goroutine below must cancel the stream this message is sent on
+	cancelStream := c.cancelStream
 
 	// This goroutine waits for either 'done' to be closed, or the request context to be cancelled.
 	// If the request context was cancelled, we have two possibilities:
@@ -224,7 +227,7 @@ func (c *channel) sendMsg(req request) (err error) {
 				// false alarm
 			default:
 				// trigger reconnect
-				c.cancelStream()
+				cancelStream()
 			}
 		}
 	}()
